@@ -8,7 +8,7 @@
     not the property; the general [_partial] statements they sample are
     written out in the comments). *)
 From InvokeVerif Require Import Model.CollModel Spec.C10Spec Corr.C10Corr
-     Proofs.CollStrings Proofs.C10_names.
+     Proofs.CollStrings Proofs.C17_path Proofs.C10_build Proofs.C10_names.
 
 (** Underscore/dash normalisation is consistent: idempotent, the later of two
     normalisations wins (so a name passed down through collections with
@@ -25,6 +25,23 @@ Proof.
   split; [exact transform_idem|]. split; [exact transform_absorb|].
   split; [exact split_transform | exact transform_join].
 Qed.
+
+(** The specification's notion of a normalised name (no rewritten character
+    strictly inside a segment) is exactly the fixed points of the
+    implementation's [transform]. *)
+Theorem C10_normalized_iff_transform_fixed : forall ad n,
+  normalized ad n = true <-> transform ad n = n.
+Proof. exact normalized_iff_fixed. Qed.
+
+(** Normalisation is applied to everything that is stored: in every tree built
+    by a script over dot-free non-empty names -- [add_task] names and aliases
+    (own and binding-level), [add_collection] names, collection names, and the
+    re-keying done by [from_module] -- every task name, alias and
+    sub-collection name of every collection is a fixed point of that
+    collection's [transform] (and dot-free, non-empty). *)
+Theorem C10_build_canonical : forall script c,
+  names_plain script = true -> build script = Ok c -> ns_canon c = true.
+Proof. exact build_canonical. Qed.
 
 (** The agreement "accepted on the command line <-> normalised name that
     lookup resolves, and the accepted token runs the task lookup returns" is
